@@ -334,14 +334,15 @@ func (ci *crdIpam) Shutdown() {
 // ConfigurePool init floatingIP pool.
 // #lizard forgives
 func (ci *crdIpam) ConfigurePool(floatIPs []*FloatingIPPool) error {
-	defer func() {
-		glog.Infof("Configure pool done, %d fip pool, %d unallocated, %d allocated", len(ci.FloatingIPs),
-			len(ci.unallocatedFIPs), len(ci.allocatedFIPs))
-	}()
 	sort.Sort(FloatingIPSlice(floatIPs))
 	// hold the lock while listing, otherwise an ip allocated after the list is dropped from the rebuilt cache
 	ci.cacheLock.Lock()
 	defer ci.cacheLock.Unlock()
+	// deferred after Unlock, i.e. it runs before Unlock and reads the cache with the lock held
+	defer func() {
+		glog.Infof("Configure pool done, %d fip pool, %d unallocated, %d allocated", len(ci.FloatingIPs),
+			len(ci.unallocatedFIPs), len(ci.allocatedFIPs))
+	}()
 	ips, err := ci.listFloatingIPs()
 	if err != nil {
 		glog.Errorf("fail to list floatIP %v", err)
